@@ -235,7 +235,7 @@ word_alphabet = st.characters(
     min_codepoint=33, max_codepoint=0x2FF,
     blacklist_characters=LINE_BREAKS + " \t\xa0\x1f",
     blacklist_categories=("Cc", "Cs", "Zs", "Zl", "Zp"))
-words = st.one_of(st.sampled_from(["solo", "soloend", "ENABLE_CHART_DYNAMICS", "x", "a=b", '"q"', "*", "T", "N", "S", "5",
+words = st.one_of(st.sampled_from(["solo", "soloend", "ENABLE_CHART_DYNAMICS", "x", "a=b", '"q"', "*", "T", "O", "H", "N", "S", "5",
                                    "end", "forced", "tap"]),
                   st.text(alphabet=word_alphabet, min_size=1, max_size=12),
                   st.lists(st.sampled_from(UNICODE_ODDITIES + ["a", "Z", "_"]), min_size=1, max_size=3).map("".join),
